@@ -448,6 +448,11 @@ def e_invalid():
     yield en([dw(['Clone'])], [X([Body(notlist='')]), Y()])
     yield st([Attr('dw', opt('skip_inner'))])
     yield st([Attr('dw', opt(MNameValue('crate', 'path', P('foo'))))])
+    # a trailing comma after the single crate option (still the crate option, in both stages)
+    yield st([Attr('dw', metas_body([MNameValue('crate', 'path', P('foo'))], trailing=True)), dw(['Clone'])])
+    yield st([dw(['Clone']), Attr('dw', metas_body([MNameValue('crate', 'str', P('foo::bar'))], trailing=True))])
+    yield st([dw(['Clone']), Attr('dw', metas_body([MNameValue('crate', 'path', P('::derive_where'))], trailing=True))])
+    yield st([dw(['Clone']), Attr('dw', metas_body([MNameValue('crate', 'other')], trailing=True))])
     # a crate path with generic arguments cannot head the attribute path of the visited marker
     for kindv in ('path', 'str'):
         yield st([dw(['Clone']), Attr('dw', opt(MNameValue('crate', kindv, PA('foo'))))])
